@@ -19,6 +19,7 @@ const hex = "0123456789abcdef"
 
 func (r *Runtime) builtinJSON_parse(call FunctionCall) Value {
 	d := json.NewDecoder(strings.NewReader(call.Argument(0).toString().String()))
+	d.UseNumber() // a numeral outside of the float64 range is not an error, it is +-Infinity or 0
 
 	value, err := r.builtinJSON_decodeValue(d)
 	if errors.Is(err, io.EOF) {
@@ -60,8 +61,15 @@ func (r *Runtime) builtinJSON_decodeToken(d *json.Decoder, tok json.Token) (Valu
 		return _null, nil
 	case string:
 		return newStringValue(tok), nil
-	case float64:
-		return floatToValue(tok), nil
+	case json.Number:
+		f, err := strconv.ParseFloat(string(tok), 64)
+		if err != nil {
+			var numErr *strconv.NumError
+			if !errors.As(err, &numErr) || numErr.Err != strconv.ErrRange {
+				return nil, err
+			}
+		}
+		return floatToValue(f), nil
 	case bool:
 		if tok {
 			return valueTrue, nil
